@@ -69,7 +69,7 @@ CHECKS = {
         tech="exhaustive token-sequence enumeration against a pushdown-automaton model, every model trace replayed on the real parser"),
     "C07": dict(
         cat="exploration", ref="4/C07",
-        text="35 kinds of failing construct (among them filters whose own error is the SourceError of another template) are placed in the taken body of every nesting path of depth 0..2 (quick) / 0..3 (thorough) over 7 enclosing block forms, under all combinations of four kinds of surrounding text at every level (0/1/2 preceding newlines, or a decoy: the very same construct on an earlier line inside a branch that is not taken), with and without newlines inside tags, parsed with and without a path at start lines 0, 1 and 7, through both entry points; the generator knows the byte offset of the failing construct, so the returned SourceError is checked for line = start + preceding newlines, path, cause chain (sentinel filter error, os.IsNotExist, conversion error), message, parse-time vs render-time, and no output together with an error.",
+        text="41 kinds of failing construct (among them filters whose own error is the SourceError of another template) are placed in the taken body of every nesting path of depth 0..2 (quick) / 0..3 (thorough) over 7 enclosing block forms, under all combinations of four kinds of surrounding text at every level (0/1/2 preceding newlines, or a decoy: the very same construct on an earlier line inside a branch that is not taken), with and without newlines inside tags, parsed with and without a path at start lines 0, 1 and 7, through both entry points; the generator knows the byte offset of the failing construct, so the returned SourceError is checked for line = start + preceding newlines, path, cause chain (sentinel filter error, os.IsNotExist, conversion error), message, parse-time vs render-time, and no output together with an error.",
         note="Placement inside included files is not enumerated (the statement does not say whose line is meant).",
         tech="exhaustive placement enumeration of failing constructs (kind x nesting path x layout x location) with a generator-known expected location"),
     "C19": dict(
